@@ -758,4 +758,393 @@ Not reachable in a build with debug assertions (the harness profile); reachable 
 theorem limb_loop_ring_degree_counterexample :
     ¬ InBounds (lens4 (16 * 1 * 1) (8 * 1 * 1) 0 0) (limbLoop 16 1 0 8 1 0 0 1) := by decide
 
+/-! ### the `span = n >> 2` + tail loops of znx_avx and fft64/reim (add, sub, negate, mul, normalization steps, conversions) -/
+
+theorem simdOperand_in_bounds (b : Nat) (wr : Bool) (n : Nat) (len : Nat → Nat) (h : n ≤ len b) : InBounds len (simdOperand b wr n) := by
+  unfold simdOperand
+  refine inb_append (inb_map (fun i hi => ?_)) (inb_ite (fun _ => inb_cons ?_ (inb_nil _)) (fun _ => inb_nil _))
+  · have hi' : i < n >>> 2 := List.mem_range.mp hi
+    rw [Nat.shiftRight_eq_div_pow] at hi'
+    simp only []
+    omega
+  · simp only []; exact h
+
+/-- **every element-wise AVX kernel, every `n`** (including `n < 4`, `n = 0`, `n` not a multiple of 4): the main loop and
+the tail touch elements `< n` only, so every operand of at least `n` elements — which the (now unconditional) equal-length
+assertions of the kernels guarantee — is accessed in bounds -/
+theorem avx_elementwise_in_bounds (name : String) (ops : List (Nat × Bool)) (hk : (name, ops) ∈ avxElementwiseKernels) (n : Nat)
+    (len : Nat → Nat) (hlen : ∀ b, b ≤ 2 → n ≤ len b) : InBounds len (simdKernel ops n) := by
+  unfold simdKernel
+  refine inb_flatMap (fun o ho => simdOperand_in_bounds o.1 o.2 n len (hlen o.1 ?_))
+  have hall : ∀ k ∈ avxElementwiseKernels, ∀ o ∈ k.2, o.1 ≤ 2 := by decide
+  exact hall (name, ops) hk o ho
+example : ("znx_normalize_middle_step_avx", [(0, true), (0, false), (1, false), (2, true), (2, false)]) ∈ avxElementwiseKernels ∧
+    avxElementwiseKernels.length = 34 ∧ simdOperand 0 true 3 = [⟨0, 0, 3, true⟩] ∧ simdOperand 1 false 6 = [⟨1, 0, 4, false⟩, ⟨1, 4, 6, false⟩] := by decide
+
+/-- the main loop + tail also covers every element `< n` of every operand exactly where the reference kernel does -/
+theorem simdOperand_covers (b : Nat) (wr : Bool) (n x : Nat) (hx : x < n) : ∃ a ∈ simdOperand b wr n, a.lo ≤ x ∧ x < a.hi := by
+  unfold simdOperand
+  by_cases h : x < (n >>> 2) <<< 2
+  · refine ⟨⟨b, 4 * (x / 4), 4 * (x / 4) + 4, wr⟩, List.mem_append_left _ (List.mem_map.mpr ⟨x / 4, ?_, rfl⟩), by simp only []; omega, by simp only []; omega⟩
+    rw [Nat.shiftRight_eq_div_pow, Nat.shiftLeft_eq] at h
+    rw [List.mem_range, Nat.shiftRight_eq_div_pow]; omega
+  · rw [Nat.shiftRight_eq_div_pow, Nat.shiftLeft_eq] at h
+    have hn : n % 4 ≠ 0 := by omega
+    refine ⟨⟨b, (n >>> 2) <<< 2, n, wr⟩, List.mem_append_right _ ?_, ?_, hx⟩
+    · simp [hn]
+    · simp only [Nat.shiftRight_eq_div_pow, Nat.shiftLeft_eq]; omega
+example : (5 : Nat) < 7 := by decide
+
+/-- `znx_automorphism_avx`: every gathered index is `< n` and every store is inside `res` (for any `inv`, any `n`
+divisible by 4 — the kernel requires a power of two `≥ 4` and falls back to the reference below 4) -/
+theorem automorphism_in_bounds (n inv : Nat) (hn : n % 4 = 0) (len : Nat → Nat) (h0 : n ≤ len 0) (h1 : n ≤ len 1) :
+    InBounds len (automorphismFoot n inv) := by
+  unfold automorphismFoot
+  refine inb_flatMap (fun i hi => ?_)
+  have hi' : i < n >>> 2 := List.mem_range.mp hi
+  rw [Nat.shiftRight_eq_div_pow] at hi'
+  refine inb_append (inb_map (fun l _ => ?_)) (inb_cons ?_ (inb_nil _))
+  · simp only [rd]
+    have hpos : 0 < n := by omega
+    have := Nat.mod_lt ((4 * i + l) * inv % (2 * n)) hpos
+    omega
+  · simp only [wt]; omega
+example : InBounds (fun _ => 8) (automorphismFoot 8 13) := by decide
+
+/-- `znx_switch_ring_avx`, both directions: strided gathers / scatters stay inside the longer operand -/
+theorem switch_ring_in_bounds (nIn nOut : Nat) (len : Nat → Nat) (h0 : nOut ≤ len 0) (h1 : nIn ≤ len 1) :
+    (nOut % 4 = 0 → nOut ∣ nIn → 0 < nOut → nOut ≤ nIn → InBounds len (switchRingDown nIn nOut)) ∧
+    (nIn % 4 = 0 → nIn ∣ nOut → 0 < nIn → nIn ≤ nOut → InBounds len (switchRingUp nIn nOut)) := by
+  constructor
+  · intro h4 hd hpos hle
+    obtain ⟨g, rfl⟩ := hd
+    unfold switchRingDown
+    refine inb_flatMap (fun i hi => ?_)
+    have hi' : i < nOut >>> 2 := List.mem_range.mp hi
+    rw [Nat.shiftRight_eq_div_pow] at hi'
+    refine inb_append (inb_map (fun l hl => ?_)) (inb_cons (by simp only [wt]; omega) (inb_nil _))
+    have hl' : l < 4 := List.mem_range.mp hl
+    simp only [rd]
+    rw [Nat.mul_div_cancel_left _ hpos]
+    have k : (4 * i + l) * g + g ≤ nOut * g := by
+      have := Nat.mul_le_mul_right g (show 4 * i + l + 1 ≤ nOut by omega)
+      rwa [Nat.add_mul, Nat.one_mul] at this
+    by_cases hg : g = 0
+    · subst hg; simp at hle; omega
+    · have : 1 ≤ g := by omega
+      omega
+  · intro h4 hd hpos hle
+    obtain ⟨g, rfl⟩ := hd
+    unfold switchRingUp
+    refine inb_flatMap (fun i hi => ?_)
+    have hi' : i < nIn >>> 2 := List.mem_range.mp hi
+    rw [Nat.shiftRight_eq_div_pow] at hi'
+    refine inb_cons (by simp only [rd]; omega) (inb_map (fun l hl => ?_))
+    have hl' : l < 4 := List.mem_range.mp hl
+    simp only [wt]
+    rw [Nat.mul_div_cancel_left _ hpos]
+    have k : (4 * i + l) * g + g ≤ nIn * g := by
+      have := Nat.mul_le_mul_right g (show 4 * i + l + 1 ≤ nIn by omega)
+      rwa [Nat.add_mul, Nat.one_mul] at this
+    by_cases hg : g = 0
+    · subst hg; simp at hle; omega
+    · have : 1 ≤ g := by omega
+      omega
+example : InBounds (fun b => if b = 0 then 4 else 16) (switchRingDown 16 4) ∧ InBounds (fun b => if b = 0 then 16 else 4) (switchRingUp 4 16) := by decide
+
+/-! ### NTT120 vmp -/
+
+theorem nttPmatOff_le (nrows ncols row col : Nat) (hr : row < nrows) (hc : col < ncols) :
+    nttPmatOff nrows ncols row col + 16 ≤ nrows * ncols * 16 := by
+  unfold nttPmatOff
+  split
+  · rename_i h
+    have k : col * nrows + (row + 1) ≤ ncols * nrows := blk_fit hc (by omega)
+    calc col * nrows * 16 + row * 16 + 16 = (col * nrows + (row + 1)) * 16 := by omega
+      _ ≤ ncols * nrows * 16 := Nat.mul_le_mul_right _ k
+      _ = nrows * ncols * 16 := by rw [Nat.mul_comm ncols nrows]
+  · rename_i h
+    have h2 : 2 * (col / 2 + 1) ≤ ncols := by
+      by_cases hp : col % 2 = 1
+      · omega
+      · by_cases he : col = ncols - 1
+        · have : ncols % 2 ≠ 1 := fun hh => h ⟨he, hh⟩
+          omega
+        · omega
+    have k1 : col / 2 * (nrows * 32) + (row * 32 + 32) ≤ (col / 2 + 1) * (nrows * 32) :=
+      blk_fit (blk := col / 2) (q := col / 2 + 1) (Q := nrows * 32) (x := row * 32 + 32) (by omega) (by omega)
+    have k2 : (col / 2 + 1) * (nrows * 32) ≤ nrows * ncols * 16 := by
+      calc (col / 2 + 1) * (nrows * 32) = (2 * (col / 2 + 1)) * (nrows * 16) := by
+            rw [Nat.mul_comm 2 (col / 2 + 1), Nat.mul_assoc, show 2 * (nrows * 16) = nrows * 32 by omega]
+        _ ≤ ncols * (nrows * 16) := Nat.mul_le_mul_right _ h2
+        _ = nrows * ncols * 16 := by rw [← Nat.mul_assoc, Nat.mul_comm ncols nrows]
+    have : col % 2 * 16 + 16 ≤ 32 := by omega
+    omega
+
+example : nttPmatOff 3 5 2 4 + 16 = 3 * 5 * 16 ∧ nttPmatOff 3 5 2 3 + 16 = 4 * 3 * 16 := by decide
+
+/-- **`ntt120_vmp_prepare`** (`pmat` in u32: `8·n·nrows·ncols`; `mat` in i64: `n·nrows·ncols`) -/
+theorem ntt_vmp_prepare_in_bounds (n nrows ncols : Nat) (hn : n % 2 = 0) :
+    InBounds (lens4 (8 * n * nrows * ncols) (n * nrows * ncols) 0 0) (nttVmpPrepare n nrows ncols) := by
+  unfold nttVmpPrepare
+  refine inb_flatMap (fun row hrow => inb_flatMap (fun col hcol => ?_))
+  have hr : row < nrows := List.mem_range.mp hrow
+  have hc : col < ncols := List.mem_range.mp hcol
+  refine inb_cons ?_ (inb_map (fun blk hblk => ?_))
+  · simp only [rd, lens4]
+    have k : row * ncols + (col + 1) ≤ nrows * ncols := blk_fit hr (by omega)
+    calc n * (row * ncols + col) + n = n * (row * ncols + (col + 1)) := by rw [Nat.mul_add n _ (col + 1), Nat.mul_add n _ col, Nat.mul_add n col 1]; omega
+      _ ≤ n * (nrows * ncols) := Nat.mul_le_mul_left _ k
+      _ = n * nrows * ncols := by rw [Nat.mul_assoc n nrows ncols]
+  · have hb : blk < n / 2 := List.mem_range.mp hblk
+    simp only [wt, lens4]
+    have := ntt_pm_fit (n := n) (blk := blk) (nrows := nrows) (ncols := ncols) hn hb (nttPmatOff_le nrows ncols row col hr hc)
+    omega
+example : InBounds (lens4 (8 * 4 * 2 * 3) (4 * 2 * 3) 0 0) (nttVmpPrepare 4 2 3) := by decide
+
+/-- **NTT120 `vmp_apply_dft_to_dft_core`** (ref and AVX x2 kernels; both `limb_offset` parities, odd last column).
+Contract: `2 ∣ n`, `res.len() = 4n·resSize`, `a.len() = 4n·aSize` (u64), `pmat.len() = 8n·nrows·ncols` (u32),
+`tmp.len() ≥ 16 + 8·min(nrows, aSize)` u64 (`ntt120_vmp_apply_dft_to_dft_tmp_bytes`) -/
+theorem ntt_vmp_apply_in_bounds (n resSize aSize nrows ncols lo tmpLen : Nat) (hn : n % 2 = 0)
+    (htmp : 16 + 8 * min nrows aSize ≤ tmpLen) :
+    InBounds (lens4 (4 * n * resSize) (4 * n * aSize) (8 * n * nrows * ncols) tmpLen) (nttVmpApply n resSize aSize nrows ncols lo) := by
+  unfold nttVmpApply
+  simp only []
+  split
+  · exact inb_cons (by simp only [wt, lens4]; omega) (inb_nil _)
+  rename_i hlo
+  have hcm1 : min ncols (resSize + lo) ≤ ncols := Nat.min_le_left _ _
+  have hcm2 : min ncols (resSize + lo) ≤ resSize + lo := Nat.min_le_right _ _
+  have hrm1 : min nrows aSize ≤ nrows := Nat.min_le_left _ _
+  have hrm2 : min nrows aSize ≤ aSize := Nat.min_le_right _ _
+  generalize hC : min ncols (resSize + lo) = colMax at *
+  generalize hR : min nrows aSize = rowMax at *
+  have hsave : ∀ blk, blk < n / 2 → ∀ j o, j < resSize → o + 8 ≤ 16 →
+      InBounds (lens4 (4 * n * resSize) (4 * n * aSize) (8 * n * nrows * ncols) tmpLen) (nttSave blk (j * (4 * n)) o) := by
+    intro blk hb j o hj ho
+    unfold nttSave
+    refine inb_cons (by simp only [rd, lens4]; omega) (inb_cons ?_ (inb_nil _))
+    simp only [wt, lens4]
+    have k := limb_fit (j := j) (k := 1) (n := 4 * n) (S := resSize) (by omega)
+    omega
+  have hm2 : ∀ blk, blk < n / 2 → ∀ c, c + 2 ≤ ncols →
+      InBounds (lens4 (4 * n * resSize) (4 * n * aSize) (8 * n * nrows * ncols) tmpLen) (nttMat2cols rowMax (blk * (nrows * ncols * 16) + c * (nrows * 16))) := by
+    intro blk hb c hc
+    unfold nttMat2cols
+    refine inb_append (inb_flatMap (fun i hi => ?_)) (inb_cons (by simp only [wt, lens4]; omega) (inb_nil _))
+    have hi' : i < rowMax := List.mem_range.mp hi
+    refine inb_cons (by simp only [rd, lens4]; omega) (inb_cons ?_ (inb_nil _))
+    simp only [rd, lens4]
+    have k1 := ntt_col_ext (c := c) (k := 2) (ncols := ncols) (nrows := nrows) (y := 32 * i + 32) hc (by omega)
+    have := ntt_pm_fit (n := n) (blk := blk) (nrows := nrows) (ncols := ncols) hn hb k1
+    omega
+  refine inb_append (inb_flatMap (fun blk hblk => ?_)) (inb_map (fun col hcol => ?_))
+  · have hb : blk < n / 2 := List.mem_range.mp hblk
+    have hpair : ∀ c, c ∈ pairCols lo colMax ∨ c ∈ pairCols (lo + 1) colMax →
+        InBounds (lens4 (4 * n * resSize) (4 * n * aSize) (8 * n * nrows * ncols) tmpLen)
+          (nttMat2cols rowMax (blk * (nrows * ncols * 16) + c * (nrows * 16)) ++ nttSave blk ((c - lo) * (4 * n)) 0 ++ nttSave blk ((c - lo + 1) * (4 * n)) 8) := by
+      intro c hc
+      have hcc : lo ≤ c ∧ c + 2 ≤ colMax := by
+        rcases hc with h | h
+        · exact ⟨(mem_pairCols h).1, (mem_pairCols h).2.1⟩
+        · exact ⟨by have := (mem_pairCols h).1; omega, (mem_pairCols h).2.1⟩
+      exact inb_append (inb_append (hm2 blk hb c (by omega)) (hsave blk hb (c - lo) 0 (by omega) (by omega)))
+        (hsave blk hb (c - lo + 1) 8 (by omega) (by omega))
+    refine inb_append (inb_append ?_ ?_) ?_
+    · unfold nttExtract
+      refine inb_flatMap (fun r hr => ?_)
+      have hr' : r < rowMax := List.mem_range.mp hr
+      refine inb_cons ?_ (inb_cons (by simp only [wt, lens4]; omega) (inb_nil _))
+      simp only [rd, lens4]
+      have k := limb_fit (j := r) (k := 1) (n := 4 * n) (S := aSize) (by omega)
+      have e : 4 * n * r = r * (4 * n) := Nat.mul_comm _ _
+      omega
+    · split
+      · exact inb_flatMap (fun c hc => hpair c (Or.inl hc))
+      · rename_i hodd
+        refine inb_append (inb_append (hm2 blk hb (lo - 1) (by omega)) ?_) (inb_flatMap (fun c hc => hpair c (Or.inr hc)))
+        have := hsave blk hb 0 8 (by omega) (by omega)
+        simpa using this
+    · refine inb_ite (fun hlast => ?_) (fun _ => inb_nil _)
+      refine inb_append (inb_ite (fun he => ?_) (fun hne => hm2 blk hb (colMax - 1) (by omega))) (hsave blk hb (colMax - 1 - lo) 0 (by omega) (by omega))
+      unfold nttMat1col
+      refine inb_append (inb_flatMap (fun i hi => ?_)) (inb_cons (by simp only [wt, lens4]; omega) (inb_nil _))
+      have hi' : i < rowMax := List.mem_range.mp hi
+      refine inb_cons (by simp only [rd, lens4]; omega) (inb_cons ?_ (inb_nil _))
+      simp only [rd, lens4]
+      have k1 := ntt_col_ext (c := colMax - 1) (k := 1) (ncols := ncols) (nrows := nrows) (y := 16 * i + 16) (by omega) (by omega)
+      have := ntt_pm_fit (n := n) (blk := blk) (nrows := nrows) (ncols := ncols) hn hb k1
+      omega
+  · have hc' := List.mem_range'_1.mp hcol
+    simp only [wt, lens4]
+    have k := limb_fit (j := col) (k := 1) (n := 4 * n) (S := resSize) (by omega)
+    omega
+example : InBounds (lens4 (16 * 3) (16 * 4) (32 * 4 * 5) (16 + 8 * 4)) (nttVmpApply 4 3 4 4 5 1) ∧
+    InBounds (lens4 (16 * 3) (16 * 2) (32 * 4 * 5) (16 + 8 * 2)) (nttVmpApply 4 3 2 4 5 2) := by decide
+
+/-! ### NTT120 `vec_znx_dft_apply`, `idft_apply`, `idft_apply_tmpa` -/
+
+/-- **`ntt120_vec_znx_dft_apply`**: every limb written / read lies inside `res` / `a` PROVIDED the operand's ring degree
+does not exceed the result's and the module's NTT table is not larger than a result limb (`tn ≤ nR`) — the second
+condition is what `NttDFTExecute for NTT120Avx` did not check (docs/fixes/26) -/
+theorem ntt_dft_apply_in_bounds (nR nA tn step offset resCols resCol resSize aCols aCol aSize : Nat)
+    (hA : nA ≤ nR) (ht : tn ≤ nR) (hrc : resCol < resCols) (hac : aCol < aCols) :
+    InBounds (lens4 (4 * nR * resCols * resSize) (nA * aCols * aSize) 0 0)
+      (nttDftApply nR nA tn step offset resCols resCol resSize aCols aCol aSize) := by
+  unfold nttDftApply
+  simp only []
+  have hm : min resSize ((aSize + step - 1) / step) ≤ resSize := Nat.min_le_left _ _
+  generalize min resSize ((aSize + step - 1) / step) = ms at *
+  refine inb_append (inb_flatMap (fun j hj => ?_)) (inb_map (fun j hj => ?_))
+  · have hj' : j < ms := List.mem_range.mp hj
+    have kr := atw_fit (w := 4 * nR) (j := j) (C := resCols) (c := resCol) (S := resSize) (x := 4 * nR) (by omega) hrc (Nat.le_refl _)
+    split
+    · rename_i hl
+      have ka := at_fit (n := nA) (j := offset + j * step) (C := aCols) (c := aCol) (S := aSize) hl hac
+      refine inb_cons ?_ (inb_cons ?_ (inb_cons ?_ (inb_nil _))) <;> simp only [rd, wt, lens4] <;> omega
+    · exact inb_cons (by simp only [wt, lens4]; omega) (inb_nil _)
+  · have hj' := List.mem_range'_1.mp hj
+    have kr := atw_fit (w := 4 * nR) (j := j) (C := resCols) (c := resCol) (S := resSize) (x := 4 * nR) (by omega) hrc (Nat.le_refl _)
+    simp only [wt, lens4]; omega
+example : InBounds (lens4 (4 * 8 * 2 * 3) (8 * 2 * 5) 0 0) (nttDftApply 8 8 8 2 1 2 1 3 2 0 5) ∧
+    (nttDftApply 8 8 8 2 1 2 1 3 2 0 5).length = 7 := by decide
+
+/-- the call that docs/fixes/26 repairs: module of ring degree 16 (`tn = 16`), result and operand of ring degree 8 —
+the forward NTT writes 64 u64 into a 32-u64 result (replay `mism be=ntt120avx op=dft nm=16 nr=8 na=8 cols=1 size=1`) -/
+theorem ntt_dft_apply_table_larger_counterexample :
+    ¬ InBounds (lens4 (4 * 8 * 1 * 1) (8 * 1 * 1) 0 0) (nttDftApply 8 8 16 1 0 1 0 1 1 0 1) := by decide
+
+/-- **`ntt120_vec_znx_idft_apply`** with the temporary of `ntt120_vec_znx_idft_apply_tmp_bytes(n)` bytes taken from scratch
+(`4n` u64), and **`…_tmpa`** (in place on `a`) -/
+theorem ntt_idft_apply_in_bounds (n tn resCols resCol resSize aCols aCol aSize : Nat) (ht : tn ≤ n)
+    (hrc : resCol < resCols) (hac : aCol < aCols) :
+    InBounds (lens4 (n * resCols * resSize) (4 * n * aCols * aSize) 0 (nttIdftTmpBytes n / 8))
+      (nttIdftApply n tn resCols resCol resSize aCols aCol aSize) ∧
+    InBounds (lens4 (n * resCols * resSize) (4 * n * aCols * aSize) 0 0)
+      (nttIdftApplyTmpA n tn resCols resCol resSize aCols aCol aSize) := by
+  have htb : nttIdftTmpBytes n / 8 = 4 * n := by unfold nttIdftTmpBytes; omega
+  have h1 : min resSize aSize ≤ resSize := Nat.min_le_left _ _
+  have h2 : min resSize aSize ≤ aSize := Nat.min_le_right _ _
+  rw [htb]
+  unfold nttIdftApply nttIdftApplyTmpA
+  generalize min resSize aSize = ms at *
+  refine ⟨inb_append (inb_flatMap (fun j hj => ?_)) (inb_map (fun j hj => ?_)),
+          inb_append (inb_flatMap (fun j hj => ?_)) (inb_map (fun j hj => ?_))⟩
+  · have hj' : j < ms := List.mem_range.mp hj
+    have kr := at_fit (n := n) (j := j) (C := resCols) (c := resCol) (S := resSize) (by omega) hrc
+    have ka := atw_fit (w := 4 * n) (j := j) (C := aCols) (c := aCol) (S := aSize) (x := 4 * n) (by omega) hac (Nat.le_refl _)
+    refine inb_cons ?_ (inb_cons ?_ (inb_cons ?_ (inb_cons ?_ (inb_cons ?_ (inb_nil _))))) <;> simp only [rd, wt, lens4] <;> omega
+  · have hj' := List.mem_range'_1.mp hj
+    have kr := at_fit (n := n) (j := j) (C := resCols) (c := resCol) (S := resSize) (by omega) hrc
+    simp only [wt, lens4]; omega
+  · have hj' : j < ms := List.mem_range.mp hj
+    have kr := at_fit (n := n) (j := j) (C := resCols) (c := resCol) (S := resSize) (by omega) hrc
+    have ka := atw_fit (w := 4 * n) (j := j) (C := aCols) (c := aCol) (S := aSize) (x := 4 * n) (by omega) hac (Nat.le_refl _)
+    refine inb_cons ?_ (inb_cons ?_ (inb_cons ?_ (inb_nil _))) <;> simp only [rd, wt, lens4] <;> omega
+  · have hj' := List.mem_range'_1.mp hj
+    have kr := at_fit (n := n) (j := j) (C := resCols) (c := resCol) (S := resSize) (by omega) hrc
+    simp only [wt, lens4]; omega
+example : InBounds (lens4 (8 * 2 * 3) (32 * 2 * 2) 0 (nttIdftTmpBytes 8 / 8)) (nttIdftApply 8 8 2 1 3 2 0 2) ∧
+    (nttIdftApply 8 8 2 1 3 2 0 2).length = 11 ∧ nttIdftTmpBytes 8 / 8 = 32 := by decide
+
+/-! ### NTT120 convolution with the x2 packs -/
+
+/-- **`ntt120_cnv_apply_dft`** (`ca = [a_col]`, `cb = [b_col]`) and **`ntt120_cnv_pairwise_apply_dft`**
+(`ca = cb = [col_i, col_j]`): `pack_left` / `pack_right` / the pairwise packs read whole 8-u64 (16-u32) blocks inside the
+operands for every row incl. the reversed walk of `pack_right`, fill exactly `a_tmp` / `b_tmp`, and every window the bbc
+kernel is handed (`ell` rows from `a_start` / `b_start`) lies inside them — given `2 ∣ n`, valid columns and the temporary
+of `ntt120_cnv_apply_dft_tmp_bytes` = `16·(a_size + b_size)` u32 -/
+theorem ntt_cnv_apply_in_bounds (n resSize resCols resCol aSize aCols bSize bCols cnvOffset tmpLen : Nat) (ca cb : List Nat)
+    (hn : n % 2 = 0) (hrc : resCol < resCols) (hca : ∀ c ∈ ca, c < aCols) (hcb : ∀ c ∈ cb, c < bCols)
+    (htmp : 16 * (aSize + bSize) ≤ tmpLen) :
+    InBounds (lens4 (4 * n * resCols * resSize) (4 * n * aCols * aSize) (8 * n * bCols * bSize) tmpLen)
+      (nttCnvApply n resSize resCols resCol aSize aCols bSize bCols cnvOffset ca cb) := by
+  unfold nttCnvApply
+  split
+  · refine inb_map (fun j hj => ?_)
+    have hj' : j < resSize := List.mem_range.mp hj
+    have kr := atw_fit (w := 4 * n) (j := j) (C := resCols) (c := resCol) (S := resSize) (x := 4 * n) hj' hrc (Nat.le_refl _)
+    simp only [wt, lens4]; omega
+  rename_i hz
+  simp only []
+  refine inb_append (inb_flatMap (fun blk hblk => ?_)) (inb_map (fun j hj => ?_))
+  · have hb : blk < n / 2 := List.mem_range.mp hblk
+    refine inb_append (inb_append (inb_flatMap (fun c hc => ?_)) (inb_flatMap (fun c hc => ?_))) (inb_flatMap (fun k hk => ?_))
+    · unfold nttPackLeft
+      refine inb_flatMap (fun row hrow => ?_)
+      have hr : row < aSize := List.mem_range.mp hrow
+      have := rowcol_fit (w := 4 * n) (c := c) (C := aCols) (row := row) (S := aSize) (x := 8 * blk + 8) (hca c hc) hr (by omega)
+      exact inb_cons (by simp only [rd, lens4]; omega) (inb_cons (by simp only [wt, lens4]; omega) (inb_nil _))
+    · unfold nttPackRight
+      refine inb_flatMap (fun row hrow => ?_)
+      have hr : row < bSize := List.mem_range.mp hrow
+      have := rowcol_fit (w := 8 * n) (c := c) (C := bCols) (row := bSize - 1 - row) (S := bSize) (x := 16 * blk + 16) (hcb c hc) (by omega) (by omega)
+      exact inb_cons (by simp only [rd, lens4]; omega) (inb_cons (by simp only [wt, lens4]; omega) (inb_nil _))
+    · have hk' := List.mem_range.mp hk
+      have kr := atw_fit (w := 4 * n) (j := k) (C := resCols) (c := resCol) (S := resSize) (x := 8 * blk + 8) (by omega) hrc (by omega)
+      unfold nttBbcWin
+      refine inb_append (inb_flatMap (fun i hi => ?_)) (inb_cons (by simp only [wt, lens4]; omega) (inb_nil _))
+      have hi' := List.mem_range.mp hi
+      exact inb_cons (by simp only [rd, lens4]; omega) (inb_cons (by simp only [rd, lens4]; omega) (inb_nil _))
+  · have hj' := List.mem_range'_1.mp hj
+    have kr := atw_fit (w := 4 * n) (j := j) (C := resCols) (c := resCol) (S := resSize) (x := 4 * n) (by omega) hrc (Nat.le_refl _)
+    simp only [wt, lens4]; omega
+example : InBounds (lens4 (16 * 2 * 4) (16 * 2 * 3) (32 * 2 * 2) (16 * 5)) (nttCnvApply 4 4 2 1 3 2 2 2 1 [0] [1]) ∧
+    InBounds (lens4 (16 * 2 * 4) (16 * 2 * 3) (32 * 2 * 2) (16 * 5)) (nttCnvApply 4 4 2 1 3 2 2 2 0 [0, 1] [0, 1]) ∧
+    (nttCnvApply 4 4 2 1 3 2 2 2 0 [0, 1] [0, 1]).length = 72 := by decide
+
+/-! ### the bbc product kernels, the i128 kernels, the 256-bit vectors -/
+
+/-- **bbc product kernels on their own slices**: in bounds iff the caller's slices hold `ell` rows and the output —
+the `# Safety` contract of `vec_mat1col_product_bbc_avx2`, `…_x2_bbc_avx2`, `vec_mat2cols_product_x2_bbc_avx2`, which the
+safe trait methods `ntt_mul_bbc`, `ntt_mul_bbc_1col_x2`, `ntt_mul_bbc_2cols_x2` of NTT120Avx did not check (docs/fixes/31) -/
+theorem bbc_kernel_in_bounds (wx wy wr ell : Nat) (len : Nat → Nat) (hx : wx * ell ≤ len 1) (hy : wy * ell ≤ len 2) (hr : wr ≤ len 0) :
+    InBounds len (bbcKernel wx wy wr ell) := by
+  unfold bbcKernel
+  refine inb_append (inb_flatMap (fun i hi => ?_)) (inb_cons (by simp only [wt]; omega) (inb_nil _))
+  have hi' : i < ell := List.mem_range.mp hi
+  have kx : wx * i + wx ≤ wx * ell := by
+    have := Nat.mul_le_mul_left wx (show i + 1 ≤ ell by omega); rwa [Nat.mul_add, Nat.mul_one] at this
+  have ky : wy * i + wy ≤ wy * ell := by
+    have := Nat.mul_le_mul_left wy (show i + 1 ≤ ell by omega); rwa [Nat.mul_add, Nat.mul_one] at this
+  exact inb_cons (by simp only [rd]; omega) (inb_cons (by simp only [rd]; omega) (inb_nil _))
+example : InBounds (fun b => if b = 0 then 16 else if b = 1 then 48 else 96) (bbcKernel 16 32 16 3) := by decide
+
+/-- a 4-u64 result handed to the x2 kernel (8 u64 stored), or `ell` larger than the rows supplied: out of bounds
+(replays `prim op=bbc1x2 ell=1 res=4 x=16 y=16` → `res=broken:0`, `prim op=bbc1x2 ell=4 res=8 x=16 y=16` → ASan READ) -/
+theorem bbc_kernel_unchecked_counterexample :
+    ¬ InBounds (fun b => if b = 0 then 4 else 16) (bbcKernel 16 16 8 1) ∧
+    ¬ InBounds (fun b => if b = 0 then 8 else 16) (bbcKernel 16 16 8 4) := by decide
+
+/-- **every NTT120 `VecZnxBig` i128 AVX kernel, every `n`**: the `chunks = n / 4` loop and the checked tail touch elements
+`< n` of every operand (i128 or i64) -/
+theorem ntt_i128_elementwise_in_bounds (name : String) (ops : List (Nat × Bool)) (hk : (name, ops) ∈ avxI128Kernels) (n : Nat)
+    (len : Nat → Nat) (hlen : ∀ b, b ≤ 2 → n ≤ len b) : InBounds len (simdKernel ops n) := by
+  unfold simdKernel
+  refine inb_flatMap (fun o ho => simdOperand_in_bounds o.1 o.2 n len (hlen o.1 ?_))
+  have hall : ∀ k ∈ avxI128Kernels, ∀ o ∈ k.2, o.1 ≤ 2 := by decide
+  exact hall (name, ops) hk o ho
+example : ("nfc_middle_step_into_avx2", [(0, true), (0, false), (1, false), (2, true), (2, false)]) ∈ avxI128Kernels ∧
+    avxI128Kernels.length = 20 := by decide
+
+/-- **no 256-bit lane beyond the logical end**: the vectors of main-loop iteration `i < n / 4` on an operand of 8- or
+16-byte elements cover, in bytes, exactly the elements `4i … 4i+3` of that operand — whole elements of this iteration,
+below `n` (the q120b / q120c kernels handle one coefficient = one whole vector per load) -/
+theorem vec256_within_chunk (es n i : Nat) (hes : es = 8 ∨ es = 16) (hi : i < n / 4) :
+    (∀ r ∈ vec256 es i, es * (4 * i) ≤ r.1 ∧ r.2 ≤ es * (4 * i + 4) ∧ r.2 ≤ es * n) ∧
+    (∀ x, es * (4 * i) ≤ x → x < es * (4 * i + 4) → ∃ r ∈ vec256 es i, r.1 ≤ x ∧ x < r.2) := by
+  constructor
+  · intro r hr
+    unfold vec256 at hr
+    obtain ⟨t, ht, rfl⟩ := List.mem_map.mp hr
+    have ht' := List.mem_range.mp ht
+    rcases hes with rfl | rfl <;> simp only [] <;> omega
+  · intro x h1 h2
+    rcases hes with rfl | rfl
+    · exact ⟨(32 * (8 / 8 * i + 0), 32 * (8 / 8 * i + 0) + 32), List.mem_map.mpr ⟨0, by simp, rfl⟩, by simp only []; omega, by simp only []; omega⟩
+    · by_cases hx : x < 16 * (4 * i) + 32
+      · exact ⟨(32 * (16 / 8 * i + 0), 32 * (16 / 8 * i + 0) + 32), List.mem_map.mpr ⟨0, by simp, rfl⟩, by simp only []; omega, by simp only []; omega⟩
+      · exact ⟨(32 * (16 / 8 * i + 1), 32 * (16 / 8 * i + 1) + 32), List.mem_map.mpr ⟨1, by simp, rfl⟩, by simp only []; omega, by simp only []; omega⟩
+example : vec256 16 3 = [(192, 224), (224, 256)] ∧ vec256 8 3 = [(96, 128)] := by decide
+
 end C17
